@@ -22,6 +22,8 @@ package theine
 
 import (
 	"bytes"
+	"os"
+	"runtime/pprof"
 	"context"
 	"fmt"
 	"runtime"
@@ -143,7 +145,7 @@ func apExec(res *vh.Result, prop string, cfg apCfg, ops []apiOp) string {
 		viol(prop, "build-fails", cfg.Kind, "the Builder refused a valid configuration: %v", err)
 		return "build-error"
 	}
-	defer a.close()
+	defer func() { a.close() }() // a closure: after a "reload" a holds another cache than the one it held here
 	hybrid, loading := a.isHybrid(), a.isLoading()
 	latest := map[int]int{} // key -> latest value stored and not deleted (whether or not it is still in memory)
 	before, _ := a.rest()
@@ -399,6 +401,7 @@ func TestVerif_APIPressure(t *testing.T) {
 		return
 	}
 	alpha := apAlphabet()
+	base := runtime.NumGoroutine()
 	var caseNo int64
 	stop := false
 	var rec func(cfg apCfg, ops []apiOp)
@@ -416,6 +419,7 @@ func TestVerif_APIPressure(t *testing.T) {
 					return
 				}
 				res.Outcome(apExec(res, prop, cfg, ops))
+				apiReap(base)
 				res.Executions++
 				res.Completed++
 				res.MaxDepth = depth
@@ -458,4 +462,16 @@ func TestVerif_APIPressure(t *testing.T) {
 	}
 	res.Bounds["configurations"] = ncfg
 	res.States = caseNo
+	var ms runtime.MemStats
+	runtime.ReadMemStats(&ms)
+	if os.Getenv("VERIF_GOROUTINES") != "" {
+		var b bytes.Buffer
+		pprof.Lookup("goroutine").WriteTo(&b, 1)
+		x := b.String()
+		if len(x) > 6000 {
+			x = x[:6000]
+		}
+		res.Note("goroutine profile: %s", x)
+	}
+	res.Note("worker memory at the end: heap in use %d MiB, sys %d MiB, total allocated %d MiB, goroutines %d", ms.HeapInuse>>20, ms.Sys>>20, ms.TotalAlloc>>20, runtime.NumGoroutine())
 }
